@@ -120,6 +120,25 @@ fn ser<O: BinaryOutput>(ty: &Ty, v: &Val, ctx: &mut SerializationContext<O>) -> 
             let xs: Vec<DynAny> = v.items().iter().map(|x| da(t, x)).collect();
             xs.serialize(ctx)
         }
+        Ty::Array(n, t) => {
+            let xs: Vec<DynAny> = v.items().iter().map(|x| da(t, x)).collect();
+            match n {
+                0 => <[DynAny; 0]>::try_from(xs).ok().unwrap().serialize(ctx),
+                1 => <[DynAny; 1]>::try_from(xs).ok().unwrap().serialize(ctx),
+                2 => <[DynAny; 2]>::try_from(xs).ok().unwrap().serialize(ctx),
+                3 => <[DynAny; 3]>::try_from(xs).ok().unwrap().serialize(ctx),
+                n => panic!("dyn: array length {n} not supported"),
+            }
+        }
+        Ty::ByteArray(n) => {
+            let b = v.as_bytes();
+            match n {
+                1 => <[u8; 1]>::try_from(b).unwrap().serialize(ctx),
+                2 => <[u8; 2]>::try_from(b).unwrap().serialize(ctx),
+                3 => <[u8; 3]>::try_from(b).unwrap().serialize(ctx),
+                n => panic!("dyn: byte array length {n} not supported"),
+            }
+        }
         Ty::Tuple(ts) => {
             let xs = v.items();
             match ts.len() {
@@ -216,6 +235,24 @@ fn de(ty: &Ty, ctx: &mut DeserializationContext<'_>) -> Result<Val> {
             let xs = with_expect(t, || Vec::<DynAny>::deserialize(ctx))?;
             Val::Seq(xs.into_iter().map(|x| x.val).collect())
         }
+        Ty::Array(n, t) => {
+            let xs: Vec<DynAny> = with_expect(t, || -> Result<Vec<DynAny>> {
+                Ok(match n {
+                    0 => <[DynAny; 0]>::deserialize(ctx)?.into_iter().collect(),
+                    1 => <[DynAny; 1]>::deserialize(ctx)?.into_iter().collect(),
+                    2 => <[DynAny; 2]>::deserialize(ctx)?.into_iter().collect(),
+                    3 => <[DynAny; 3]>::deserialize(ctx)?.into_iter().collect(),
+                    n => panic!("dyn: array length {n} not supported"),
+                })
+            })?;
+            Val::Seq(xs.into_iter().map(|x| x.val).collect())
+        }
+        Ty::ByteArray(n) => Val::Bytes(match n {
+            1 => <[u8; 1]>::deserialize(ctx)?.to_vec(),
+            2 => <[u8; 2]>::deserialize(ctx)?.to_vec(),
+            3 => <[u8; 3]>::deserialize(ctx)?.to_vec(),
+            n => panic!("dyn: byte array length {n} not supported"),
+        }),
         Ty::Tuple(ts) => match ts.len() {
             1 => {
                 let (a,) = with_expect(&ts[0], || <(DynAny,)>::deserialize(ctx))?;
@@ -369,8 +406,8 @@ fn de_enum(ed: &EnumDescr, ctx: &mut DeserializationContext<'_>) -> Result<Val> 
             return Ok(Val::Enum(decl, fields));
         }
     }
-    // the macro's expansion ends here; report it as the library's "unknown constructor" error
-    Err(Error::InvalidConstructorId { constructor_id: u32::MAX, type_name: format!("<dyn driver fell through> {}", ed.name) })
+    // the macro's expansion ends with this call
+    d.unknown_constructor(&ed.name)
 }
 
 pub fn dyn_encode(ty: &Ty, v: &Val) -> Out<Vec<u8>> {
